@@ -42,11 +42,22 @@ type Options struct {
 	EarlyDirent bool // pessimistic model: directory entries durable at creation
 	Torn        bool
 	MaxPerPoint int
+	// Base: durable content present before the first journal operation (repeated crashes: the image the
+	// recovery run started from)
+	BaseFiles map[string][]byte
+	BaseDirs  []string
+	Marks     []string // markers inherited from the first-level image
 }
 
 // stateAt computes the per-file state after ops[0:k].
 func stateAt(ops []vos.Op, k int, o Options) map[string]*fileState {
 	files := map[string]*fileState{}
+	for p, c := range o.BaseFiles {
+		files[p] = &fileState{durable: append([]byte{}, c...), exists: true, created: true}
+	}
+	for _, d := range o.BaseDirs {
+		files[d] = &fileState{isDir: true, exists: true, created: true}
+	}
 	get := func(p string) *fileState {
 		f := files[p]
 		if f == nil {
@@ -149,14 +160,14 @@ func choicesFor(f *fileState, o Options) []choice {
 
 // Image is one materialisable crash image.
 type Image struct {
-	Point   int               // crash after ops[0:Point]
-	Marks   []string          // harness markers seen before the crash point
-	Files   map[string][]byte // path (as recorded) -> content
-	Dirs    []string
-	Desc    string // per-file "applied/pending+torn" description
-	Hash    [32]byte
-	Capped  bool
-	LastOp  string
+	Point  int               // crash after ops[0:Point]
+	Marks  []string          // harness markers seen before the crash point
+	Files  map[string][]byte // path (as recorded) -> content
+	Dirs   []string
+	Desc   string // per-file "applied/pending+torn" description
+	Hash   [32]byte
+	Capped bool
+	LastOp string
 }
 
 type Stats struct {
@@ -176,7 +187,7 @@ func Enumerate(ops []vos.Op, o Options, seen map[[32]byte]bool, visit func(img *
 			// the marker itself changes nothing on disk, but acknowledgements change the obligations: keep it
 		}
 		st.Points++
-		var marks []string
+		marks := append([]string{}, o.Marks...)
 		for _, op := range ops[:k] {
 			if op.Kind == "mark" {
 				marks = append(marks, op.Note)
